@@ -7,7 +7,7 @@
    strconv oracles (text of FormatFloat(f,'G',-1,64); IsPrint above ASCII), universally
    quantified here and supplied and checked per case by the harness. *)
 From Coq Require Import String.
-From Verif Require Import Params Base Value Formatter FormatSpec FormatProofs FormatText.
+From Verif Require Import Params Base Value Formatter FormatSpec FormatProofs FormatText FormatBound.
 Open Scope Z_scope.
 
 (* ---- format_total: every call ends (the model has no fuel), and what it returns is decided by
@@ -45,6 +45,21 @@ Theorem C10_elided_mapping_text :
     tokens_at ftext printable maximum d n (VMapping k ks vs) =
     Some (delim 91 :: tok TElision [46; 46; 46] :: ctx_toks (map_type k)).
 Proof. exact elided_mapping. Qed.
+
+(* within the limit nothing is elided: the token list consists of grammar tokens only *)
+Theorem C10_format_no_elision_within_limit :
+  forall (ftext : Z -> list Z) (printable : Z -> bool) (maximum : nat) (v : val) (ts : list ftoken),
+    (nest_depth v <= maximum)%nat ->
+    tokens_of ftext printable maximum v = Some ts -> has_elision ts = false.
+Proof. exact format_no_elision. Qed.
+
+(* the length of the text is bounded by [cost] of the value pruned at the limit: a function of
+   what lies within the limit and of the limit only *)
+Theorem C10_format_bounded :
+  forall (ftext : Z -> list Z) (printable : Z -> bool) (maximum : nat) (v : val) (t : list Z),
+    format0 ftext printable maximum v = Ret t ->
+    (length t <= S (cost ftext printable maximum (prune maximum v)))%nat.
+Proof. exact format0_bounded. Qed.
 
 (* self-containing values: every unfolding deeper than the limit gives the same text *)
 Theorem C10_self_containing_stable :
@@ -94,6 +109,17 @@ Theorem C10_float_text_refuted_before_fix :
   exists t, g_shape t = true /\ is_float_literal (old_float t) = false.
 Proof. exact old_float_text_refuted. Qed.
 
+(* complex numbers: both parts through formatFloat, "+" in front of a part that is >= 0; under
+   the oracle hypotheses (both texts of the %G shape; the text of a part that is not >= 0 starts
+   with a minus sign — also checked per case) the text is a complex literal of the scanner *)
+Theorem C10_complex_text_ok :
+  forall (ftext : Z -> list Z) (printable : Z -> bool) (w re im ab ph : Z) (t : list Z),
+    g_shape (ftext re) = true -> g_shape (ftext im) = true ->
+    (f_nonneg im = false -> exists r, ftext im = 45 :: r) ->
+    intrinsic_text ftext printable (VComplex w re im ab ph) = Some t ->
+    is_complex_literal t = true.
+Proof. exact complex_intrinsic_ok. Qed.
+
 Theorem C10_rune_text_ok :
   forall (printable : Z -> bool) (r : Z), is_rune_literal (quote_rune printable r) = true.
 Proof. exact rune_text_ok. Qed.
@@ -137,6 +163,13 @@ Example C10_ex_self_containing :
   format0 ex_ftext ex_print 2 (selfnest KList 20) = Ret (s2z "[[[...](List)](List)](List)
 ").
 Proof. vm_compute. reflexivity. Qed.
+(* the bound does not grow with the unfolding of a self-containing value *)
+Example C10_ex_bound_self_containing :
+  cost ex_ftext ex_print 2 (prune 2 (selfnest KList 20)) = cost ex_ftext ex_print 2 (prune 2 (selfnest KList 2000))
+  /\ nest_depth ex_nested = 3%nat
+  /\ option_map has_elision (tokens_of ex_ftext ex_print 3 ex_nested) = Some false
+  /\ option_map has_elision (tokens_of ex_ftext ex_print 2 ex_nested) = Some true.
+Proof. vm_compute. repeat split; reflexivity. Qed.
 (* floats through the repaired formatFloat, a catalog, widths *)
 Example C10_ex_floats_and_widths :
   format0 ex_ftext ex_print 8
@@ -154,6 +187,12 @@ Example C10_ex_g_shape :
   /\ fix_float (s2z "1E+06") = s2z "1.0E+6" /\ fix_float (s2z "-1.2345E-100") = s2z "-1.2345E-100"
   /\ is_float_literal (s2z "1E+06") = false /\ is_float_literal (s2z "1.5E-07") = false.
 Proof. vm_compute. repeat split; reflexivity. Qed.
+Example C10_ex_complex :
+  intrinsic_text ex_ftext ex_print (VComplex 128 4696837146684686336 4602678819172646912 0 0)
+    = Some (s2z "(1.0E+6+1.5E-7i)")
+  /\ is_complex_literal (s2z "(1.0E+6+1.5E-7i)") = true /\ is_complex_literal (s2z "(1.0+-0.0i)") = true
+  /\ is_complex_literal (s2z "(1E+06+1.5E-07i)") = false.
+Proof. vm_compute. repeat split; reflexivity. Qed.
 Example C10_ex_quotes :
   quote_rune ex_print 10 = s2z "'\n'" /\ quote_rune ex_print 39 = s2z "'\''" /\ quote_rune ex_print 55296 = [39; 65533; 39]
   /\ quote_str (fun _ => false) [97; 34; 255; 195; 169; 0] = s2z """a\""\xff\u00e9\x00""".
@@ -167,6 +206,8 @@ Print Assumptions C10_format_tokens.
 Print Assumptions C10_format_elides.
 Print Assumptions C10_elided_sequence_text.
 Print Assumptions C10_elided_mapping_text.
+Print Assumptions C10_format_no_elision_within_limit.
+Print Assumptions C10_format_bounded.
 Print Assumptions C10_self_containing_stable.
 Print Assumptions C10_format_pure_state.
 Print Assumptions C10_format_pure.
@@ -174,5 +215,6 @@ Print Assumptions C10_format_after_failure_refuted_before_fix.
 Print Assumptions C10_format_width_free.
 Print Assumptions C10_float_text_ok.
 Print Assumptions C10_float_text_refuted_before_fix.
+Print Assumptions C10_complex_text_ok.
 Print Assumptions C10_rune_text_ok.
 Print Assumptions C10_string_text_ok.
